@@ -24,6 +24,24 @@ pub fn run(out: &mut Out, tier: &str, rng: &mut Rng) {
             out.count(&format!("close {}", close.tok()));
         }
     }
+    // the client dies INSIDE a large frame (payload of 257..1024 bytes) that would have changed its registration had it been
+    // whole: a truncated frame is no frame, the registration at the time of death is the one that counts
+    for (first, second) in [(0x10u8, 0x00u8), (0x00, 0x10), (0x11, 0x01), (0x10, 0x10)] {
+        for len in [257usize, 301, 512, 1024] {
+            let mut big = vec![second];
+            big.extend(std::iter::repeat(b'n').take(len - 1));
+            let bigf = sess::frame(0x10, &big);
+            for cut in [11usize, 12, 10 + len / 2, 10 + len - 1] {
+                let mut s = session_frame(first, "a").bytes;
+                s.extend(sess::frame(0x20, &[0x10, 1, 0, 0, 0x12, 0x34]));
+                s.extend(&bigf[..cut]);
+                for close in [Close::Eof, Close::Reset] {
+                    sess::run_case(out, &inst, "sess", &[Ev::Bytes(s.clone()), Ev::Close(close)], true);
+                }
+                out.count("death inside a large upgrade frame");
+            }
+        }
+    }
     // the armed client stalled inside a frame while signals overran its session, then died
     crate::c05::stalled(out, &inst);
     // a valid armed upgrade followed by an invalid one (and vice versa)
